@@ -150,6 +150,10 @@ def _finish(rp, desc, mf):
                 rp.get_num_variables()
                 rp.get_constraint_data()
                 rp.get_objective_data()
+                rp.get_sufficient_penalty(False)
+                if rp.get_num_variables() > 0:
+                    rp.get_qubo()
+                    rp.get_qubo(feasibility=True)
             except Exception:  # noqa: reported by the checks that call dense_data
                 pass
         np.random.seed(desc["np_seed"])
